@@ -95,8 +95,12 @@ macro_rules! angle_systems {
                 ctx.check(n >= T::zero() && n <= turn, &key(concat!($label, "/normalize/range")), || format!("normalize({:?}) = {:?} not in [0, {:?}]", a, n, turn));
                 ctx.check(whole_turns::<T>(a - n, turn, a.f().abs()), &key(concat!($label, "/normalize/congruent")), || format!("normalize({:?}) = {:?} differs by {:?} turns", a, n, ((a - n) / turn)));
                 if T::EXACT {
+                    // the representative in [0, turn); at whole multiples of the turn the statement's closed interval
+                    // allows the other end as well
                     let m = m_norm::<T::M>(a.lift(), turn.lift(), &|x| T::floor_m(x));
-                    eq_s::<T>(ctx, &key(concat!($label, "/normalize")), n, m);
+                    if !(m.is_zero() && n == turn) {
+                        eq_s::<T>(ctx, &key(concat!($label, "/normalize")), n, m);
+                    }
                     same_slice(ctx, &key(concat!($label, "/normalize/idempotent")), &[A(n).normalize().0], &[n]);
                 }
                 // normalize_signed in [-turn/2, turn/2]
@@ -106,7 +110,12 @@ macro_rules! angle_systems {
                 // opposite(a) = normalize(a + half turn)
                 let o = ang.opposite().0;
                 let via = (ang + A::<T>::turn_div_2()).normalize().0;
-                same_slice(ctx, &key(concat!($label, "/opposite")), &[o], &[via]);
+                if T::EXACT {
+                    same_slice(ctx, &key(concat!($label, "/opposite")), &[o], &[via]);
+                } else {
+                    // the same number up to rounding (or the other end of the closed interval)
+                    ctx.check(whole_turns::<T>(o - via, turn, a.f().abs()), &key(concat!($label, "/opposite")), || format!("opposite({:?}) = {:?}, normalize(a + half turn) = {:?}", a, o, via));
+                }
                 ctx.check(o >= T::zero() && o <= turn, &key(concat!($label, "/opposite/range")), || format!("opposite({:?}) = {:?}", a, o));
                 ctx.check(whole_turns::<T>(o - a - half, turn, a.f().abs()), &key(concat!($label, "/opposite/half-turn-away")), || format!("opposite({:?}) = {:?}", a, o));
             }
@@ -346,11 +355,14 @@ macro_rules! angle_systems {
                             ctx.t();
                             let tol = K_TOL * T::U * (m.e + m.v.abs());
                             if !m.v.is_finite() || !tol.is_finite() {
-                                return; // poles: not judged
+                                ctx.branch("pole-not-judged");
+                                return;
                             }
                             if tol > 1e-3 * (1.0 + m.v.abs()) {
-                                return; // ill-conditioned near a pole
+                                ctx.branch("ill-conditioned-not-judged");
+                                return;
                             }
+                            ctx.branch("judged");
                             if !((got.f() - m.v).abs() <= tol) {
                                 ctx.fail(&key(&format!("{}/{}", $label, name)), || format!("{}({:?}) = {:?}, real function gives {:?} (tolerance {:e})", name, x, got, m.v, tol));
                             }
@@ -368,7 +380,17 @@ macro_rules! angle_systems {
                 );
                 // inverse functions: principal value in the caller's unit
                 let n = rep.pick(41, 401);
-                let ratios: Vec<T> = (0..n).map(|j| num_traits::cast::<f64, T>(-1.0 + 2.0 * j as f64 / (n - 1) as f64).unwrap()).collect();
+                let mut ratios: Vec<T> = (0..n).map(|j| num_traits::cast::<f64, T>(-1.0 + 2.0 * j as f64 / (n - 1) as f64).unwrap()).collect();
+                // small arguments (asin x = x, atan x = x short cuts) and the neighbourhood of +-1
+                for k in 1..=7 {
+                    ratios.push(num_traits::cast::<f64, T>(3.0 * 10f64.powi(-k)).unwrap());
+                    ratios.push(num_traits::cast::<f64, T>(-(10f64.powi(-k))).unwrap());
+                }
+                for d in [1e-3, 1e-6] {
+                    ratios.push(num_traits::cast::<f64, T>(1.0 - d).unwrap());
+                    ratios.push(num_traits::cast::<f64, T>(-1.0 + d).unwrap());
+                }
+                let n = ratios.len();
                 let from_rad = |m: Sh| -> Sh { if $is_rad { m } else { m * Sh::rounded(num_traits::cast::<f64, T>(180.0 / PI).unwrap().f()) } };
                 let half_turn_f = A::<T>::turn_div_2().0.f();
                 rep.cases(
